@@ -427,6 +427,11 @@ func (g *Gen) arrayExpr(sc scope) string {
 	if len(sc.strs) == 0 {
 		w[3] = 0
 	}
+	if !g.NoCustom && g.r.Chance(0.04) {
+		// a temporary map built by a custom filter (iterated as [key, value] pairs)
+		g.use("filter:kv")
+		return pick(g.r, []string{g.strAtom(sc), g.numAtom(sc)}) + " | kv: " + g.strLit()
+	}
 	switch g.r.weighted(w) {
 	case 0:
 		base = pick(g.r, sc.arrs)
@@ -733,6 +738,15 @@ func (g *Gen) node(sc *scope, depth int) *TNode {
 		n := g.trim(&TNode{K: "block", S: args, C: g.Nodes(inner, depth+1, 4)})
 		g.loopVars = g.loopVars[:len(g.loopVars)-1]
 		g.loop--
+		if strings.Contains(args, "| kv:") && name == "for" && g.r.Chance(0.6) {
+			// a second loop over another temporary of the same shape, printing its pairs
+			g.nvar++
+			v2 := fmt.Sprintf("i%d", g.nvar)
+			second := &TNode{K: "block", S: "for " + v2 + " in " + pick(g.r, []string{g.strAtom(*sc), g.numAtom(*sc)}) + " | kv: " + g.strLit(),
+				C: []*TNode{{K: "obj", S: v2 + "[0]"}, {K: "text", S: "="}, {K: "obj", S: v2 + "[1]"}, {K: "text", S: ";"}}}
+			n.C = append(n.C, &TNode{K: "obj", S: v + "[1]"})
+			return &TNode{K: "block", S: "if true", C: []*TNode{n, second}}
+		}
 		if strings.Contains(args, "recs") && g.r.Chance(0.6) {
 			// records: read a property of the loop variable (one site, several record types)
 			n.C = append([]*TNode{{K: "obj", S: v + "." + pick(g.r, []string{"name", "Title", "Other", "n", "Label", "Label", "Count"})}}, n.C...)
